@@ -73,6 +73,16 @@ fn gen_instance(rng: &mut Rng) -> Scenario {
     let mut sc = Scenario::new(d.bytes);
     sc.strict = rng.bool();
     sc.handlers = if rng.bool() { wl::mutators(rng, false) } else { wl::observers(rng) };
+    if rng.chance(1, 6) {
+        // string-keyed per-instance state (hash maps with a random per-instance seed): many
+        // sibling custom elements with equal-length names, selectors counting siblings per type
+        let t = wl::tree(rng, &wl::TreeOpts { max_depth: 2, max_children: 10, custom: true, foreign: false, text_mode_elements: false, ..Default::default() });
+        sc = Scenario::new(t.bytes);
+        sc.handlers = vec![wl::el_observer("*:nth-of-type(2n+1)"), wl::el_observer(":first-of-type"), wl::el_observer("*:nth-of-type(2)"), wl::el_observer("x-aa:nth-of-type(3)")];
+        if rng.bool() {
+            sc.handlers.push(HandlerSpec::Element { sel: ":nth-of-type(2)".into(), ops: vec![ElOp::SetAttr("n".into(), "2".into())] });
+        }
+    }
     if rng.chance(1, 4) {
         sc.adjust_charset = true;
     }
@@ -348,7 +358,7 @@ impl Property for C18 {
         }
     }
     fn rule(&self) -> &'static str {
-        "one run = one multi-instance simulation: 2-6 generated rewriter scenarios (Send rewriters migrate to a randomly chosen thread at every API call, non-Send ones stay pinned), 1-3 C last-error producer/consumer tasks and 0-3 selector-parsing tasks over 2-8 real OS threads; a seeded scheduler picks the task and thread of every step and exactly one thread holds the baton at a time; each instance's history must equal its solo single-thread history, every C last-error take must return exactly the calling thread's own pending error, and repeating the simulation (same process, and fresh processes with different hash seeds) must give identical histories; non-trivial = at least two instances interleaved with a thread hand-over between their steps; distinct by (scenarios, schedule seed) fingerprint"
+        "one run = one multi-instance simulation: 2-6 generated rewriter scenarios (1 in 6 over many sibling custom elements with equal-length names and per-type sibling-counting selectors, i.e. string-keyed hash maps with a per-instance random seed; Send rewriters migrate to a randomly chosen thread at every API call, non-Send ones stay pinned), 1-3 C last-error producer/consumer tasks and 0-3 selector-parsing tasks over 2-8 real OS threads; a seeded scheduler picks the task and thread of every step and exactly one thread holds the baton at a time; each instance's history must equal its solo single-thread history, every C last-error take must return exactly the calling thread's own pending error, and repeating the simulation (same process, and fresh processes with different hash seeds) must give identical histories; non-trivial = at least two instances interleaved with a thread hand-over between their steps; distinct by (scenarios, schedule seed) fingerprint"
     }
     fn assumptions(&self) -> Vec<&'static str> {
         vec![
